@@ -528,6 +528,28 @@ struct Ad
         return -1;
     }
 
+    // White-box: the expiry instant the implementation itself recorded for every resident key
+    // (-1 entries: not resident).  Used by the clocked concurrent check: an entry served at or after
+    // the deadline the implementation stamped on it contradicts the implementation's own bookkeeping,
+    // whatever instant inside the insert call one takes as "the time of the write".
+    void stamped_deadlines(int64_t out[MAXK + 1])
+    {
+        for (int k = 0; k <= MAXK; k++)
+            out[k] = -1;
+        if constexpr (ck == CK::tlru || ck == CK::utlru)
+        {
+            for (auto& kv : c.m_keyed_elements)
+                if (kv.first.v >= 0 && kv.first.v <= MAXK && kv.second < c.m_elements.size())
+                    out[kv.first.v] = c.m_elements[kv.second].m_expire_time.time_since_epoch().count();
+        }
+        else if constexpr (ck == CK::ut_map || ck == CK::ut_set)
+        {
+            for (auto& kv : c.m_keyed_elements)
+                if (kv.first.v >= 0 && kv.first.v <= MAXK)
+                    out[kv.first.v] = kv.second.m_ttl_position->m_expire_time.time_since_epoch().count();
+        }
+    }
+
     std::string dump()
     {
         std::ostringstream s;
